@@ -181,7 +181,8 @@ func assertionOptions() []Option {
 	return []Option{
 		{Name: "assertions.issuers", A: []any{"http://other.local"}},
 		{Name: "assertions.audience", A: []any{"aud2"}, B: []any{"aud1"}},
-		{Name: "assertions.scopes", A: []any{"write"}},
+		// two lists that are different and render alike ([read write]): two scopes / one scope containing a blank
+		{Name: "assertions.scopes", A: []any{"read", "write"}, B: []any{"read write"}},
 		{Name: "assertions.allowed_algorithms", A: []any{"PS256"}},
 		{Name: "assertions.validity_leeway", A: "30s"},
 		{Name: "cache_ttl", A: "0s", B: "7m"},
